@@ -310,3 +310,15 @@ Proof.
     + vm_compute; reflexivity.
     + vm_compute; reflexivity.
 Qed.
+
+(* ---- L12: a change below a detach_self'ed node does not reach it (its parent link is gone), and attach() does not
+        recompute: the re-attached node carries a stale content_id ---- *)
+Definition h_L12 := [leaf "a"; leaf "b"; leaf "x"; inner (Some 0) None [1]; inner (Some 2) None [3];
+                     ODetachSelf 4; OReplace 1 [(lit "v", CV (FP (LS (lit "c"))))]; OAttach 4]%string.
+Lemma refuted_attach_stale_content_id :
+  exists s, run_ok empty_st h_L12 = Some s /\ ~ LInv Hid ct0 s.
+Proof.
+  eexists. split; [vm_compute; reflexivity|].
+  intros HI. specialize (HI 4). destruct HI as [_ _ _ Hc]; [vm_compute; lia | vm_compute; reflexivity |].
+  vm_compute in Hc. discriminate.
+Qed.
